@@ -309,6 +309,12 @@ func Gen(seed int64, index int, o GenOpts) *Case {
 		// running for a month
 		startSec = 2.6e6 + float64(pick(100000))/7
 		c.Features["late-start"] = true
+		if pick(2) == 0 {
+			// time stamps taken from the wall clock (seconds since the Unix epoch): 1.5e14 ticks at
+			// 90 kHz, beyond what a float64 product of ticks and 1e9 holds exactly
+			startSec = 1.7e9 + float64(pick(30000000))
+			c.Features["epoch-start"] = true
+		}
 	}
 	segMinSec := c.Cfg.SegMin.Seconds()
 	if gopGrowth > 0 {
